@@ -431,6 +431,43 @@ fn check_fetch_order(case: &FetchCase, ctx: &mut Ctx) {
     ctx.nontrivial_if(dup_in_flight_when_freed && done > 0);
 }
 
+
+// ------------------------------------------------------------------------------------------------
+// section store_distance_order: the record store's distance decisions (which record is the farthest,
+// which is evicted, what lies within the responsible range) under C10's store histories, restarts
+// included. Only the findings that are about ORDERING BY DISTANCE are taken over; capacity accounting
+// and quoting figures stay C10's.
+// ------------------------------------------------------------------------------------------------
+
+const DISTANCE_ORDER_SIGNATURES: &[&str] = &[
+    "farthest_view_wrong",
+    "eviction_wrong_victim",
+    "farther_record_accepted_at_capacity",
+    "cleanup_removed_in_range_record",
+    "cleanup_kept_out_of_range_record",
+    "views_disagree_distance_index",
+    "distance_index_wrong_distance",
+    "distance_index_unknown_key",
+];
+
+fn check_store_distance_order(case: &crate::c10::Case, ctx: &mut Ctx) {
+    let mut inner = Ctx::default();
+    crate::c10::check(case, &mut inner);
+    ctx.nontrivial = inner.nontrivial;
+    ctx.canon = inner.canon;
+    ctx.sample = inner.sample;
+    for l in inner.labels {
+        if !l.starts_with("inconclusive") {
+            ctx.labels.push(l);
+        }
+    }
+    for f in inner.failures {
+        if DISTANCE_ORDER_SIGNATURES.contains(&f.sig.as_str()) {
+            ctx.fail(f.sig, f.detail);
+        }
+    }
+}
+
 pub fn run(cfg: RunCfg) {
     let mut rep = Report::new(cfg, "exploration");
     rep.rule = "C11: addresses of every kind (peer, chunk, register, scratchpad, transaction, raw keys of 0-64 bytes, constructed near-collisions of the hash prefix); reference = SHA-256/XOR/big-endian in the harness.".into();
@@ -462,6 +499,11 @@ pub fn run(cfg: RunCfg) {
         rep, "fetch_order", (40_000, 1_000_000), 16,
         "real ReplicationFetcher with a backlog larger than its parallel limit (40 keys, two to three holders advertising overlapping subsets): after every scheduling step the records scheduled must be no farther (reference metric) than any queued record that is not in flight. non-trivial: a key queued from a second holder was in flight when a slot freed",
         fetch_strategy, check_fetch_order
+    );
+    vh_core::section!(
+        rep, "store_distance_order", (3_000, 60_000), 16,
+        "C10's store histories (puts at arbitrary distances at small capacities, acknowledgements, ranges, clean-ups, restarts) judged only for ordering by distance: farthest record, eviction victim, in-range sets, distance index. non-trivial as in C10",
+        crate::c10::case_strategy, check_store_distance_order
     );
     rep.finish();
 }
